@@ -1122,6 +1122,57 @@ package eval
 //@   ensures [caller-memory-untouched] (forall ((r Int)) (! (=> (and (< r (old (next))) (not (= r (s_arr $params)))) (= (select (heap E_Value) r) (select (old (heap E_Value)) r))) :pattern ((select (heap E_Value) r))))
 //@   assigns next E_Value sent.* dyn.* last.err
 
+// C06 / C13 — line splitting used by Dump: the cut points lie inside the text (range over a string: the cursor is a byte
+// offset advancing by the width of the rune read; (iter.pos 1) is that cursor).
+//@ func splitLinesOutsideStrings C06 C13
+//@   loop 1
+//@     invariant [cut-points-inside-the-text] (and (<= 0 $start) (<= $start (iter.pos 1)) (<= (iter.pos 1) (strlen $s)))
+
+// C06 / C13 — Dump's operand lookup: the operands of node idx are the non-event nodes whose parent entry is idx, in
+// program order; for an `if` node the end-if marker (fourth) is dropped.  chW(idx, r) names the r-th of the four
+// (ghost witness, any interpretation satisfying the precondition): with four operand slots present the three index
+// expressions res[0], res[1], res[3] are in range; every returned index is a valid node index.
+//@ ghost (declare-fun chW (Int Int) Int)
+//@ macro (CHWOK $e $idx $r) (and (<= 0 (chW $idx $r)) (< (chW $idx $r) (len (fld $e nodes))) (= (PARENTAT $e (chW $idx $r)) $idx) (not (= (KIND (NODEAT $e (chW $idx $r))) 7)))
+//@ func Dump.getChildIdxes C06 C13
+//@   requires [shape] (and (PROGSHAPE $e) (<= 0 $idx) (< $idx (len (fld $e nodes))))
+//@   requires [if-node-has-four-operand-slots] (=> (= (KIND (NODEAT $e $idx)) 5)
+//@        (and (CHWOK $e $idx 0) (CHWOK $e $idx 1) (CHWOK $e $idx 2) (CHWOK $e $idx 3) (< (chW $idx 0) (chW $idx 1)) (< (chW $idx 1) (chW $idx 2)) (< (chW $idx 2) (chW $idx 3))))
+//@   ensures [valid-node-indices] (forall ((j Int)) (! (=> (and (<= (off $ret0) j) (< j (+ (off $ret0) (len $ret0)))) (and (<= 0 (select (arr $ret0) j)) (< (select (arr $ret0) j) (len (fld $e nodes))))) :pattern ((select (arr $ret0) j))))
+//@   ensures [if-has-three-operands] (=> (= (KIND (NODEAT $e $idx)) 5) (= (len $ret0) 3))
+//@   ensures [program-untouched] (I16FRAME)
+//@   loop 1 (rangeindex)
+//@     invariant [range] (and (<= -1 $rangeindex) (< $rangeindex (len (fld $e parentIdx))))
+//@     invariant [program-untouched] (and (I16FRAME) (or (= (cap $res) 0) (fresh $res)))
+//@     invariant [found-so-far] (=> (= (KIND (NODEAT $e $idx)) 5) (and (=> (<= (chW $idx 0) $rangeindex) (>= (len $res) 1)) (=> (<= (chW $idx 1) $rangeindex) (>= (len $res) 2))
+//@          (=> (<= (chW $idx 2) $rangeindex) (>= (len $res) 3)) (=> (<= (chW $idx 3) $rangeindex) (>= (len $res) 4))))
+//@     invariant [valid-node-indices] (forall ((j Int)) (! (=> (and (<= (off $res) j) (< j (+ (off $res) (len $res)))) (and (<= 0 (select (arr $res) j)) (< (select (arr $res) j) (len (fld $e nodes))))) :pattern ((select (arr $res) j))))
+
+// Dump proper: every index it uses is a node index; `if` nodes that have operands have their four operand slots.
+//@ macro (DUMPSHAPE $e) (and (PROGSHAPE $e)
+//@    (forall ((j Int)) (! (=> (and (INNODES $e j) (= (KIND (select (arr (fld $e nodes)) j)) 5) (not (= (fld (select (arr (fld $e nodes)) j) childCnt) 0)))
+//@       (let ((k (- j (off (fld $e nodes)))))
+//@         (and (CHWOK $e k 0) (CHWOK $e k 1) (CHWOK $e k 2) (CHWOK $e k 3) (< (chW k 0) (chW k 1)) (< (chW k 1) (chW k 2)) (< (chW k 2) (chW k 3)))))
+//@       :pattern ((select (arr (fld $e nodes)) j)))))
+//@ func Dump.helper C06 C13
+//@   binds helper Dump.helper
+//@   binds getChildIdxes Dump.getChildIdxes
+//@   requires [shape] (and (DUMPSHAPE $e) (<= 0 $idx) (< $idx (len (fld $e nodes))))
+//@   requires [closures-set] (and (not (= $helper 0)) (not (= $getChildIdxes 0)))
+//@   ensures [program-untouched] (I16FRAME)
+//@   loop 1 (rangeindex)
+//@     invariant [program-untouched] (I16FRAME)
+//@     invariant [operand-indices-valid] (forall ((j Int)) (! (=> (and (<= (off $childIdxes) j) (< j (+ (off $childIdxes) (len $childIdxes))))
+//@          (and (<= 0 (select (arr $childIdxes) j)) (< (select (arr $childIdxes) j) (len (fld $e nodes))))) :pattern ((select (arr $childIdxes) j))))
+//@   loop 2 (rangeindex)
+//@     invariant [program-untouched] (I16FRAME)
+//@     invariant [operand-indices-valid] (forall ((j Int)) (! (=> (and (<= (off $childIdxes) j) (< j (+ (off $childIdxes) (len $childIdxes))))
+//@          (and (<= 0 (select (arr $childIdxes) j)) (< (select (arr $childIdxes) j) (len (fld $e nodes))))) :pattern ((select (arr $childIdxes) j))))
+//@ func Dump C06 C13
+//@   requires [shape] (DUMPSHAPE $e)
+//@   loop 1 (rangeindex)
+//@     invariant [root-index] (and (<= 0 $rootIdx) (< $rootIdx (len (fld $e nodes))))
+
 // ---------------------------------------------------------------------------
 // C13 — leaf printing.  The lexer reads a string literal as the raw text between two double quotes (no
 // escapes), so a string constant must be printed raw between quotes; lists are printed element by element,
